@@ -21,6 +21,8 @@ type B = BasicGarnishData<(), NoOpCompanion>;
 #[derive(Clone, Debug)]
 enum Node {
     Num(i32),
+    /// a float, mostly one that equals a small integer the graph also holds as an integer
+    Flt(f64),
     Text(String),
     Sym(String),
     Pair(usize, usize),
@@ -46,7 +48,13 @@ fn gen_nodes(t: &mut Tape, n: usize) -> Vec<Node> {
             Node::Num(i as i32)
         } else {
             match t.choose(10) {
-                0 => Node::Num(t.choose(50) as i32),
+                0 => {
+                    if t.chance(90) {
+                        Node::Flt([0.0, 1.0, 2.0, -0.0, 0.5, 3.0][t.choose(6)])
+                    } else {
+                        Node::Num([0, 1, 2, 3][t.choose(4)] + if t.chance(60) { t.choose(50) as i32 } else { 0 })
+                    }
+                }
                 1 => {
                     // mostly short; now and then empty or long enough to cross the store's growth steps
                     let extra = [0usize, 0, 0, 0, 1, 9, 40, 130][t.choose(8)];
@@ -64,7 +72,7 @@ fn gen_nodes(t: &mut Tape, n: usize) -> Vec<Node> {
                     if k > 4 {
                         // a long list refers to leaves only: the reachability expansion visits a shared value once per path
                         // (the recorded clone-limit finding), so long lists of shared compound values take exponential time
-                        let leaves: Vec<usize> = (0..i).filter(|j| matches!(nodes[*j], Node::Num(_) | Node::Text(_) | Node::Sym(_) | Node::Bytes(_))).collect();
+                        let leaves: Vec<usize> = (0..i).filter(|j| matches!(nodes[*j], Node::Num(_) | Node::Flt(_) | Node::Text(_) | Node::Sym(_) | Node::Bytes(_))).collect();
                         Node::List((0..k).map(|_| leaves[t.choose(leaves.len())]).collect())
                     } else {
                         Node::List((0..k).map(|_| pick(t, i)).collect())
@@ -89,6 +97,7 @@ fn build_graph(d: &mut B, nodes: &[Node]) -> Result<Graph, String> {
     for n in nodes {
         let (a, v) = match n {
             Node::Num(i) => (d.add_number(SimpleNumber::Integer(*i)).map_err(e)?, V::Int(*i)),
+            Node::Flt(f) => (d.add_number(SimpleNumber::Float(*f)).map_err(e)?, V::Float(*f)),
             Node::Text(s) => (d.parse_add_char_list(&format!("\"{}\"", s)).map_err(e)?, value::text(s)),
             Node::Bytes(b) => {
                 let spelled = if b.is_empty() { "''".to_string() } else { format!("'''{}'''", b.iter().map(|x| x.to_string()).collect::<Vec<_>>().join(" ")) };
